@@ -224,14 +224,14 @@ Qed.
 (* ------------------------------------------------------------------ the C08 statements *)
 Lemma wkt_parse_no_panic_lemma : forall ts, is_panic (parse ts) = false.
 Proof.
-  intros ts. pose proof (okT_parse_geom (S (length ts)) ts (Nat.lt_succ_diag_r _)) as H.
+  intros ts. pose proof (okT_parse_geom (S (length ts)) ts (le_n _)) as H.
   unfold okT in H. unfold parse.
   destruct (parse_geom (S (length ts)) ts) as [[g [|t r]]|e|p]; auto. contradiction.
 Qed.
 
 Lemma wkt_parse_fuel_enough_lemma : forall ts, parse ts <> Err EFuel.
 Proof.
-  intros ts. pose proof (okT_parse_geom (S (length ts)) ts (Nat.lt_succ_diag_r _)) as H.
+  intros ts. pose proof (okT_parse_geom (S (length ts)) ts (le_n _)) as H.
   unfold okT in H. unfold parse.
   destruct (parse_geom (S (length ts)) ts) as [[g [|t r]]|e|p]; try discriminate. congruence.
 Qed.
@@ -240,6 +240,39 @@ Qed.
 Lemma wkt_parse_geom_consumes_lemma : forall ts g r,
   parse_geom (S (length ts)) ts = Ok (g, r) -> exists used, ts = used ++ r /\ (1 <= length used)%nat.
 Proof.
-  intros ts g r E. pose proof (okT_parse_geom (S (length ts)) ts (Nat.lt_succ_diag_r _)) as H.
+  intros ts g r E. pose proof (okT_parse_geom (S (length ts)) ts (le_n _)) as H.
   unfold okT in H. rewrite E in H. exact H.
+Qed.
+
+(* ------------------------------------------------------------------ lexer + parser *)
+Lemma lex_go_total : forall s cur, is_panic (lex_go cur s) = false /\ lex_go cur s <> Err EFuel.
+Proof.
+  induction s as [|c r IH]; intros cur; cbn [lex_go].
+  - split; [reflexivity|discriminate].
+  - destruct c as [a|b].
+    + destruct (is_letter a); [apply IH|].
+      destruct (is_digit a).
+      { destruct cur; [split; [reflexivity|discriminate]|apply IH]. }
+      destruct (code a =? 0)%N; [split; [reflexivity|discriminate]|].
+      destruct (128 <=? code a)%N; [split; [reflexivity|discriminate]|].
+      destruct (_ && _); [split; [reflexivity|discriminate]|].
+      destruct (IH []) as [Hp Hf]. destruct (lex_go [] r); cbn [bind] in *;
+        split; try reflexivity; try discriminate; auto.
+    + destruct (glue_after r); [split; [reflexivity|discriminate]|].
+      destruct (IH []) as [Hp Hf].
+      destruct (b <? wk_two63)%N.
+      * destruct cur; [|split; [reflexivity|discriminate]].
+        destruct (lex_go [] r); cbn [bind] in *; split; try reflexivity; try discriminate; auto.
+      * destruct (lex_go [] r); cbn [bind] in *; split; try reflexivity; try discriminate; auto.
+Qed.
+
+(* UnmarshalWKT(s, NoValidate{}) on the model's text alphabet: lexer, parser, EOF check *)
+Lemma unmarshal_wkt_no_panic_lemma : forall s,
+  is_panic (unmarshal_wkt s) = false /\ unmarshal_wkt s <> Err EFuel.
+Proof.
+  intros s. unfold unmarshal_wkt, lex. destruct (lex_go_total s []) as [Hp Hf].
+  destruct (lex_go [] s) as [ts|e|p]; cbn [bind] in *.
+  - split; [apply wkt_parse_no_panic_lemma|apply wkt_parse_fuel_enough_lemma].
+  - split; [reflexivity|]. intros E. apply Hf. inversion E. reflexivity.
+  - discriminate.
 Qed.
